@@ -250,7 +250,7 @@ Lemma total_index_affine f f' k b A B i : (forall m, f' m = k * f m + b) -> k <>
   total_index f' A B i = total_index f A B i.
 Proof.
   intros Hf Hk HA. unfold total_index.
-  rewrite (map_ext f' (fun m => k * f m + b) Hf). rewrite <- !(map_map f (fun y => k * y + b)).
+  rewrite !(map_ext f' (fun m => k * f m + b) Hf). rewrite <- !(map_map f (fun y => k * y + b)).
   apply jansen_affine; [exact Hk | destruct A; [congruence | discriminate]].
 Qed.
 
@@ -296,4 +296,216 @@ Proof.
   intros Hz m v. unfold logit_4d, masked_map. f_equal. f_equal.
   apply flat_map_ext. intro f. apply flat_map_ext. intro h. apply map_ext. intro w.
   rewrite vecmat_zero_row by exact Hz. reflexivity.
+Qed.
+
+(* ---------- model = reference definition ---------- *)
+Section ImportanceProofs.
+Variables (Hd : list (list Qc) -> list (list Qc)) (head : list Qc -> list Qc).
+Hypothesis HHd : rowwise Hd head.
+Variables (bs : nat) (Wb : list (list Qc)) (F cls n R : nat) (A B : list (list Qc)).
+Hypothesis Hbs : (1 <= bs)%nat.
+Hypothesis HA : is_matrix n R A.
+Hypothesis HB : is_matrix n R B.
+Let masks := replicated_design R A B.
+
+Lemma stis_2d_spec coeff :
+  stis_2d Hd bs Wb F cls n R masks coeff = map (total_index (logit_2d head Wb F cls coeff) A B) (seq 0 R).
+Proof.
+  unfold stis_2d, perturbed_2d. rewrite (batch_inference_rowwise Hd head) by assumption. rewrite !map_map.
+  apply (jansen_on_design (logit_2d head Wb F cls coeff)); assumption.
+Qed.
+
+Lemma importance_2d_is_jansen coeffs :
+  importance_2d Hd bs Wb F cls n R masks coeffs
+  = map (importance_spec (map (logit_2d head Wb F cls) coeffs) A B) (seq 0 R).
+Proof.
+  unfold importance_2d. rewrite (map_ext _ _ stis_2d_spec).
+  rewrite (mean_axis0_map R (fun coeff i => total_index (logit_2d head Wb F cls coeff) A B i)).
+  apply map_ext. intro i. unfold importance_spec. rewrite map_map, map_length. reflexivity.
+Qed.
+
+(* 4-D: what the head receives is the map rebuilt location by location, every location masked by the same row *)
+Lemma head_inputs_4d_spec H W coeff : (1 <= H)%nat -> (1 <= W)%nat ->
+  length coeff = H -> (forall r, In r coeff -> length r = W) ->
+  head_inputs_4d Wb F masks H W coeff = map (masked_map F H W Wb coeff) masks.
+Proof.
+  intros HH HW Hc Hr. unfold head_inputs_4d, perturbed_4d.
+  set (P := fun m : list Qc => map (map (fun u => vmul u m)) coeff).
+  rewrite <- (flatten_nhw_map (fun u => vecmat F u Wb)).
+  rewrite reshape_flatten_nhw; [| exact HH | exact HW |].
+  - rewrite !map_map. apply map_ext. intro m. unfold hwc_to_chw, masked_map, P.
+    apply flat_map_ext. intro f. apply flat_map_ext_in. intros h Hh. apply in_seq in Hh.
+    apply map_ext_in. intros w Hw. apply in_seq in Hw. f_equal.
+    rewrite !nth_map_map.
+    assert (Hrow : length (nth h coeff []) = W) by (apply Hr; apply nth_In; lia).
+    rewrite map_map. apply (nth_map_in (fun x => vecmat F (vmul x m) Wb) (nth h coeff []) w [] []). lia.
+  - apply shape_nhw_map. intros x Hx. apply in_map_iff in Hx. destruct Hx as [m [<- _]]. unfold P.
+    rewrite map_length. split; [exact Hc|]. intros r Hin. apply in_map_iff in Hin. destruct Hin as [r0 [<- Hr0]].
+    rewrite map_length. apply Hr. exact Hr0.
+Qed.
+
+Lemma stis_4d_spec H W coeff : (1 <= H)%nat -> (1 <= W)%nat ->
+  length coeff = H -> (forall r, In r coeff -> length r = W) ->
+  stis_4d Hd bs Wb F cls n R masks H W coeff = map (total_index (logit_4d head Wb F H W cls coeff) A B) (seq 0 R).
+Proof.
+  intros HH HW Hc Hr. unfold stis_4d. rewrite head_inputs_4d_spec by assumption.
+  rewrite (batch_inference_rowwise Hd head) by assumption. rewrite !map_map.
+  apply (jansen_on_design (logit_4d head Wb F H W cls coeff)); assumption.
+Qed.
+
+Lemma importance_4d_is_jansen H W coeffs : (1 <= H)%nat -> (1 <= W)%nat -> coeffs <> [] -> shape_nhw H W coeffs ->
+  importance_4d Hd bs Wb F cls n R masks coeffs
+  = map (importance_spec (map (logit_4d head Wb F H W cls) coeffs) A B) (seq 0 R).
+Proof.
+  intros HH HW Hne Hs. unfold importance_4d.
+  assert (E1 : length (hd [] coeffs) = H).
+  { destruct coeffs as [|c0 cs]; [congruence|]. apply (Hs c0). left. reflexivity. }
+  assert (E2 : length (hd [] (hd [] coeffs)) = W).
+  { destruct coeffs as [|c0 cs]; [congruence|]. cbn [hd] in *. destruct c0 as [|r0 c0]; [cbn [length] in E1; lia|].
+    apply (proj2 (Hs (r0 :: c0) (or_introl eq_refl))). left. reflexivity. }
+  rewrite E1, E2.
+  rewrite (map_ext_in _ (fun coeff => map (total_index (logit_4d head Wb F H W cls coeff) A B) (seq 0 R))).
+  - rewrite (mean_axis0_map R (fun coeff i => total_index (logit_4d head Wb F H W cls coeff) A B i)).
+    apply map_ext. intro i. unfold importance_spec. rewrite map_map, map_length. reflexivity.
+  - intros coeff Hin. apply stis_4d_spec; [exact HH | exact HW | apply (Hs coeff Hin) | apply (Hs coeff Hin)].
+Qed.
+End ImportanceProofs.
+
+(* ---------- consequences, first on the reference definition (any family L of masked logits) ---------- *)
+Lemma spec_affine {T} (L L' : T -> list Qc -> Qc) coeffs k b A B i :
+  (forall u m, L' u m = k * L u m + b) -> k <> 0 -> A <> [] ->
+  importance_spec (map L' coeffs) A B i = importance_spec (map L coeffs) A B i.
+Proof.
+  intros HL Hk HA. unfold importance_spec. rewrite !map_map, !map_length. f_equal. f_equal.
+  apply map_ext. intro u. apply (total_index_affine (L u) (L' u) k b); [apply HL | exact Hk | exact HA].
+Qed.
+
+Lemma spec_zero {T} (L : T -> list Qc -> Qc) coeffs A B j :
+  length A = length B -> (forall u, In u coeffs -> ignores (L u) j) -> importance_spec (map L coeffs) A B j = 0.
+Proof.
+  intros HL Hig. unfold importance_spec. rewrite map_map.
+  rewrite (qsum_map_ext _ (fun _ => 0)) by (intros u Hu; apply total_index_ignored; [exact HL | apply Hig; exact Hu]).
+  rewrite qsum_zero. unfold Qcdiv. ring.
+Qed.
+
+Lemma is_matrix_nonempty n d (A : list (list Qc)) : (1 <= n)%nat -> is_matrix n d A -> A <> [].
+Proof. intros Hn [HA _] E. subst A. cbn [length] in HA. lia. Qed.
+
+(* ---------- 2-D ---------- *)
+Lemma importance_2d_nonneg Hd head bs Wb F cls n R A B coeffs v :
+  rowwise Hd head -> (1 <= bs)%nat -> (2 <= n)%nat -> is_matrix n R A -> is_matrix n R B ->
+  In v (importance_2d Hd bs Wb F cls n R (replicated_design R A B) coeffs) -> 0 <= v.
+Proof.
+  intros HHd Hbs Hn HA HB Hin. rewrite (importance_2d_is_jansen Hd head HHd bs Wb F cls n R A B Hbs HA HB) in Hin.
+  apply in_map_iff in Hin. destruct Hin as [i [<- _]]. apply importance_spec_nonneg. destruct HA as [-> _]. exact Hn.
+Qed.
+
+Lemma importance_2d_affine Hd head Hd' head' k b bs Wb F cls n R A B coeffs :
+  rowwise Hd head -> rowwise Hd' head' -> (forall a, nthq (head' a) cls = k * nthq (head a) cls + b) -> k <> 0 ->
+  (1 <= bs)%nat -> (1 <= n)%nat -> is_matrix n R A -> is_matrix n R B ->
+  importance_2d Hd' bs Wb F cls n R (replicated_design R A B) coeffs
+  = importance_2d Hd bs Wb F cls n R (replicated_design R A B) coeffs.
+Proof.
+  intros HHd HHd' Hh Hk Hbs Hn HA HB.
+  rewrite (importance_2d_is_jansen Hd head HHd bs Wb F cls n R A B Hbs HA HB).
+  rewrite (importance_2d_is_jansen Hd' head' HHd' bs Wb F cls n R A B Hbs HA HB).
+  apply map_ext. intro i. apply (spec_affine _ _ coeffs k b); [| exact Hk | exact (is_matrix_nonempty n R A Hn HA)].
+  intros u m. unfold logit_2d. apply Hh.
+Qed.
+
+Lemma importance_2d_zero_ignored Hd head bs Wb F cls n R A B coeffs j :
+  rowwise Hd head -> (1 <= bs)%nat -> is_matrix n R A -> is_matrix n R B -> (j < R)%nat ->
+  (forall u, In u coeffs -> ignores (logit_2d head Wb F cls u) j) ->
+  nthq (importance_2d Hd bs Wb F cls n R (replicated_design R A B) coeffs) j = 0.
+Proof.
+  intros HHd Hbs HA HB Hj Hig. rewrite (importance_2d_is_jansen Hd head HHd bs Wb F cls n R A B Hbs HA HB).
+  unfold nthq. rewrite nth_map_seq by exact Hj. apply spec_zero; [destruct HA as [-> _]; destruct HB as [-> _]; reflexivity | exact Hig].
+Qed.
+
+Lemma importance_2d_zero_bank_row Hd head bs Wb F cls n R A B coeffs j :
+  rowwise Hd head -> (1 <= bs)%nat -> is_matrix n R A -> is_matrix n R B -> (j < R)%nat ->
+  (forall k, nthq (nth j Wb []) k = 0) ->
+  nthq (importance_2d Hd bs Wb F cls n R (replicated_design R A B) coeffs) j = 0.
+Proof.
+  intros HHd Hbs HA HB Hj Hz. apply (importance_2d_zero_ignored Hd head); try assumption.
+  intros u _. apply logit_2d_zero_row. exact Hz.
+Qed.
+
+(* ---------- 4-D ---------- *)
+Lemma importance_4d_nonneg Hd head bs Wb F cls n R A B H W coeffs v :
+  rowwise Hd head -> (1 <= bs)%nat -> (2 <= n)%nat -> is_matrix n R A -> is_matrix n R B ->
+  (1 <= H)%nat -> (1 <= W)%nat -> coeffs <> [] -> shape_nhw H W coeffs ->
+  In v (importance_4d Hd bs Wb F cls n R (replicated_design R A B) coeffs) -> 0 <= v.
+Proof.
+  intros HHd Hbs Hn HA HB HH HW Hne Hs Hin.
+  rewrite (importance_4d_is_jansen Hd head HHd bs Wb F cls n R A B Hbs HA HB H W coeffs HH HW Hne Hs) in Hin.
+  apply in_map_iff in Hin. destruct Hin as [i [<- _]]. apply importance_spec_nonneg. destruct HA as [-> _]. exact Hn.
+Qed.
+
+Lemma importance_4d_affine Hd head Hd' head' k b bs Wb F cls n R A B H W coeffs :
+  rowwise Hd head -> rowwise Hd' head' -> (forall a, nthq (head' a) cls = k * nthq (head a) cls + b) -> k <> 0 ->
+  (1 <= bs)%nat -> (1 <= n)%nat -> is_matrix n R A -> is_matrix n R B ->
+  (1 <= H)%nat -> (1 <= W)%nat -> coeffs <> [] -> shape_nhw H W coeffs ->
+  importance_4d Hd' bs Wb F cls n R (replicated_design R A B) coeffs
+  = importance_4d Hd bs Wb F cls n R (replicated_design R A B) coeffs.
+Proof.
+  intros HHd HHd' Hh Hk Hbs Hn HA HB HH HW Hne Hs.
+  rewrite (importance_4d_is_jansen Hd head HHd bs Wb F cls n R A B Hbs HA HB H W coeffs HH HW Hne Hs).
+  rewrite (importance_4d_is_jansen Hd' head' HHd' bs Wb F cls n R A B Hbs HA HB H W coeffs HH HW Hne Hs).
+  apply map_ext. intro i. apply (spec_affine _ _ coeffs k b); [| exact Hk | exact (is_matrix_nonempty n R A Hn HA)].
+  intros u m. unfold logit_4d. apply Hh.
+Qed.
+
+Lemma importance_4d_zero_ignored Hd head bs Wb F cls n R A B H W coeffs j :
+  rowwise Hd head -> (1 <= bs)%nat -> is_matrix n R A -> is_matrix n R B ->
+  (1 <= H)%nat -> (1 <= W)%nat -> coeffs <> [] -> shape_nhw H W coeffs -> (j < R)%nat ->
+  (forall u, In u coeffs -> ignores (logit_4d head Wb F H W cls u) j) ->
+  nthq (importance_4d Hd bs Wb F cls n R (replicated_design R A B) coeffs) j = 0.
+Proof.
+  intros HHd Hbs HA HB HH HW Hne Hs Hj Hig.
+  rewrite (importance_4d_is_jansen Hd head HHd bs Wb F cls n R A B Hbs HA HB H W coeffs HH HW Hne Hs).
+  unfold nthq. rewrite nth_map_seq by exact Hj. apply spec_zero; [destruct HA as [-> _]; destruct HB as [-> _]; reflexivity | exact Hig].
+Qed.
+
+Lemma importance_4d_zero_bank_row Hd head bs Wb F cls n R A B H W coeffs j :
+  rowwise Hd head -> (1 <= bs)%nat -> is_matrix n R A -> is_matrix n R B ->
+  (1 <= H)%nat -> (1 <= W)%nat -> coeffs <> [] -> shape_nhw H W coeffs -> (j < R)%nat ->
+  (forall k, nthq (nth j Wb []) k = 0) ->
+  nthq (importance_4d Hd bs Wb F cls n R (replicated_design R A B) coeffs) j = 0.
+Proof.
+  intros HHd Hbs HA HB HH HW Hne Hs Hj Hz. apply (importance_4d_zero_ignored Hd head) with (H := H) (W := W); try assumption.
+  intros u _. apply logit_4d_zero_row. exact Hz.
+Qed.
+
+(* ---------- the whole of estimate_importance: extractor, NMF transform, Halton draw AB, head ---------- *)
+Lemma estimate_importance_2d_correct {X} (G : list X -> list (list Qc)) g nmf Hd head bs Wb F cls n R AB xs :
+  rowwise G g -> rowwise Hd head -> (1 <= bs)%nat -> is_matrix n (2 * R) AB ->
+  estimate_importance_2d G nmf Hd bs Wb F cls n R AB xs
+  = map (importance_spec (map (logit_2d head Wb F cls) (nmf (map g xs))) (map (firstn R) AB) (map (skipn R) AB))
+        (seq 0 R).
+Proof.
+  intros HG HHd Hbs HAB. destruct (sampler_halves n R AB HAB) as [HA HB].
+  unfold estimate_importance_2d, replicated_sampler, transform_2d.
+  rewrite (batch_inference_rowwise G g) by assumption.
+  apply (importance_2d_is_jansen Hd head HHd bs Wb F cls n R _ _ Hbs HA HB).
+Qed.
+
+Lemma estimate_importance_4d_correct {X} (G : list X -> list (list Qc)) g nmf f Hd head bs C H W Wb F cls n R AB xs :
+  rowwise G g -> rowwise nmf f -> rowwise Hd head -> (1 <= bs)%nat -> is_matrix n (2 * R) AB ->
+  (1 <= H)%nat -> (1 <= W)%nat -> xs <> [] ->
+  estimate_importance_4d G nmf Hd bs C H W Wb F cls n R AB xs
+  = map (importance_spec (map (fun x => logit_4d head Wb F H W cls (map (map f) (chw_to_hwc C H W (g x)))) xs)
+                         (map (firstn R) AB) (map (skipn R) AB))
+        (seq 0 R).
+Proof.
+  intros HG Hnmf HHd Hbs HAB HH HW Hne. destruct (sampler_halves n R AB HAB) as [HA HB].
+  unfold estimate_importance_4d, replicated_sampler.
+  rewrite (transform_4d_rowwise G g nmf HG f Hnmf) by assumption.
+  rewrite (importance_4d_is_jansen Hd head HHd bs Wb F cls n R _ _ Hbs HA HB H W).
+  - rewrite map_map. reflexivity.
+  - exact HH.
+  - exact HW.
+  - destruct xs; [congruence | discriminate].
+  - rewrite <- (map_map (fun x => chw_to_hwc C H W (g x)) (map (map f))). apply shape_nhw_map.
+    rewrite <- (map_map g). apply chw_to_hwc_shape.
 Qed.
